@@ -273,9 +273,24 @@ func buildSet(kind string, f func(a, b int) int, members []int, viaRemove bool, 
 		s.Add(m)
 	}
 	for v := 0; v <= n; v++ {
-		if !in[v] {
-			s.Remove(v)
+		if !in[v] && !s.Contains(v) {
+			continue
 		}
+		if !in[v] {
+			// under a many-to-one comparator v may be "the same" as a member: removing it would remove the member
+			same := false
+			for _, m := range members {
+				if f != nil && f(m, v) == 0 {
+					same = true
+				}
+			}
+			if !same {
+				s.Remove(v)
+			}
+		}
+	}
+	for _, m := range members { // the representative stored for a member is the member itself
+		s.Add(m)
 	}
 	return s
 }
